@@ -236,7 +236,11 @@ func (cc *checkCtx) run(writeBaseline bool) int {
 			}
 		}
 	}
-	m.solveAll(s.smt, obs, 16)
+	workers := 16
+	if cc.tier == "thorough" {
+		workers = 6 // three back ends per query
+	}
+	m.solveAll(s.smt, obs, workers)
 	// canary: a planted false goal must come back sat
 	canary := &Obligation{Fn: "canary", Kind: "ensures", Label: "false", Goal: TFalse, PC: nil}
 	m.solveAll(s.smt, []*Obligation{canary}, 1)
@@ -461,6 +465,21 @@ func (cc *checkCtx) report(obs []*Obligation, reports []*FuncReport, writeBaseli
 	if standins == nil {
 		standins = []interface{}{}
 	}
+	// concordance replay of the EXACT functions in this run (thorough tier)
+	concordRuns, concordMismatch := 0, 0
+	var concordNotes []string
+	if cc.tier == "thorough" || os.Getenv("GOVC_FORCE_CONCORD") != "" {
+		keys := map[string]bool{}
+		for _, rep := range reports {
+			keys[rep.Key] = true
+		}
+		concordRuns, concordMismatch, concordNotes = cc.concordance(keys)
+		if concordMismatch > 0 {
+			for _, n := range concordNotes {
+				fmt.Println("ENGINE-MISMATCH:", n)
+			}
+		}
+	}
 	// evidence
 	var trusted []string
 	for a := range assumed {
@@ -469,20 +488,24 @@ func (cc *checkCtx) report(obs []*Obligation, reports []*FuncReport, writeBaseli
 	sort.Strings(trusted)
 	ev := &Evidence{PropertyID: cc.prop, Tier: cc.tier, Seed: cc.seed, Level: "proof", Violations: cc.violations, WallS: round3(time.Since(cc.start).Seconds())}
 	ev.Coverage = map[string]interface{}{
-		"obligations":              total,
-		"discharged":               discharged,
-		"checker_cmd":              fmt.Sprintf("/verif/bin/govc check -prop %s -tier %s (VC generation over go/ssa of /repo; back ends z3 5.1.0, cvc5 1.0.3, z3 4.8.12)", cc.prop, cc.tier),
-		"trusted_base":             trusted,
-		"functions_under_contract": fnInfo,
-		"paths":                    paths,
-		"by_backend":               s.smt.byBack,
-		"solver_s":                 round3(s.smt.solverS),
-		"solver_queries":           s.smt.queries,
-		"samples":                  samples,
-		"known_findings":           kfOut,
-		"undecided":                undec,
-		"stale_contracts":          stale,
-		"bounded_standins":         standins,
+		"obligations":               total,
+		"discharged":                discharged,
+		"checker_cmd":               fmt.Sprintf("/verif/bin/govc check -prop %s -tier %s (VC generation over go/ssa of /repo; back ends z3 5.1.0, cvc5 1.0.3, z3 4.8.12)", cc.prop, cc.tier),
+		"trusted_base":              trusted,
+		"functions_under_contract":  fnInfo,
+		"paths":                     paths,
+		"by_backend":                s.smt.byBack,
+		"solver_s":                  round3(s.smt.solverS),
+		"solver_queries":            s.smt.queries,
+		"single_backend_discharges": s.smt.single,
+		"samples":                   samples,
+		"known_findings":            kfOut,
+		"undecided":                 undec,
+		"stale_contracts":           stale,
+		"bounded_standins":          standins,
+		"concordance_runs":          concordRuns,
+		"concordance_mismatches":    concordMismatch,
+		"concordance_notes":         concordNotes,
 	}
 	ev.Assumptions = append([]string{
 		"A-SSA: go/ssa (x/tools v0.29.0) lowers the source as the compiler executes it",
@@ -498,6 +521,9 @@ func (cc *checkCtx) report(obs []*Obligation, reports []*FuncReport, writeBaseli
 	os.MkdirAll(filepath.Join(s.vdir, "evidence"), 0o755)
 	os.WriteFile(filepath.Join(s.vdir, "evidence", cc.prop+".json"), append(b, '\n'), 0o644)
 	fmt.Printf("property=%s tier=%s obligations=%d discharged=%d violations=%d undecided=%d wall=%.1fs\n", cc.prop, cc.tier, total, discharged, cc.violations, len(undec), time.Since(cc.start).Seconds())
+	if concordMismatch > 0 {
+		return 2
+	}
 	if cc.violations > 0 {
 		return 1
 	}
